@@ -569,7 +569,7 @@ def part_preparse(ctx):
     vyper.__version__ = "0.4.3"       # the checkout has no release version; give version pragmas a realistic target
     try:
         srcs = corpus_sources(ctx)
-        n_text = 50 if ctx.tier == "quick" else 600
+        n_text = 40 if ctx.tier == "quick" else 600
         texts = srcs + [(n, s) for n, s in REPLAYS] + text_variants(ctx, srcs, n_text)
         # ---- (4) search: whole front end on texts
         outcomes = {}
@@ -594,7 +594,7 @@ def part_preparse(ctx):
                 continue
             n_src += 1
             cases.append((name, toks, name.startswith("c18/") and name.endswith(".vyi")))
-        n_streams = 120 if ctx.tier == "quick" else 1500
+        n_streams = 90 if ctx.tier == "quick" else 1500
         for kind, toks in gen_streams(ctx, n_streams):
             cases.append((kind, toks, False))
         model_cases = []
